@@ -91,6 +91,24 @@
 //     shuts the exporter down exactly once and Collect afterwards gives
 //     ErrReaderShutdown), readers built WithProducer. The external producer
 //     and the instrument kinds (Add and Record) add no assertion of their own.
+//   - Slow collaborators of the metric pipeline (MProg.Slow): an external
+//     producer, an observable callback or the exporter's Export takes a
+//     generated 0.3-5 ms and does not react to the cancellation of its context
+//     (a slow scrape of a bridged library); Shutdown / ForceFlush / Collect
+//     are also given contexts whose deadline expires 1-2 ms after the call
+//     (MOp.C > 0), and a shutdown op may first wait until a collection is in
+//     flight in such a collaborator (MOp.W). For the metric pipeline "after
+//     Shutdown has returned ... nothing more is exported" is read per Export
+//     CALL (there is no per-record notion as for spans and log records), and
+//     for ANY returned Shutdown call, whatever its context and result: once a
+//     Shutdown call on a PeriodicReader (direct, or through its provider) has
+//     returned, no Export call BEGINS on its exporter. An Export that began
+//     before the return and is still running is not a violation. (The other
+//     post-shutdown obligations keep their live-context reading above.)
+//   - Stock batch span processors are built with generated options
+//     (TBatchOpt: queue size, batch size, batch timeout, export timeout,
+//     WithBlocking; each unset / zero / negative / tiny / large), around the
+//     recording exporter and around nil. Nothing new is asserted for them.
 //   - Unregistering a processor of a non-comparable dynamic type that was
 //     never registered must not panic; REGISTERING such a processor is outside
 //     the quantifier ("every stock processor ... combination") and is not
@@ -114,8 +132,17 @@ import (
 const never = int64(1) << 62
 
 // mkCtx: 0 = live, -2 = a context whose deadline has already expired
-// (Err() == context.DeadlineExceeded), anything else = already cancelled.
+// (Err() == context.DeadlineExceeded), c > 0 = a context that is live now and
+// whose deadline expires in c milliseconds (metric programs only), anything
+// else = already cancelled.
 func mkCtx(c int) context.Context {
+	switch {
+	case c > 0:
+		d := time.Duration(c) * time.Millisecond
+		ctx, cancel := context.WithTimeout(context.Background(), d)
+		time.AfterFunc(d+time.Second, cancel) // releases the timer; the deadline has long passed
+		return ctx
+	}
 	switch c {
 	case 0:
 		return context.Background()
@@ -174,6 +201,9 @@ func panicViolations(calls []*callRec) []vk.Violation {
 }
 
 func ctxName(c *callRec) string {
+	if c.C > 0 {
+		return fmt.Sprintf("ctx=deadline(%dms)", c.C)
+	}
 	switch c.C {
 	case 0:
 		return "ctx=live"
